@@ -430,6 +430,10 @@ var eqCorpus = [][2]string{
 	{"+proj=longlat +a=6378137 +rf=298.25 +towgs84=1,2,3", "+proj=longlat +a=6378137 +rf=298.25 +towgs84=1,2,3.0000000000000004"},
 	{"+proj=longlat +a=6378137 +rf=298.25 +towgs84=1,2,3,1,1,1,1", "+proj=longlat +a=6378137 +rf=298.25 +towgs84=1,2,3,1,1,1,2"},
 	{"+proj=longlat +a=6378137 +rf=298.25 +towgs84=1,2,3,1,1,1,1", "+proj=longlat +a=6378137 +rf=298.25 +towgs84=2,2,3,1,1,1,1"},
+	// Equal(.,.,3) is not transitive: false eastings 1, 1+3ulp, 1+6ulp (C20_equal_not_trans): t, t, f
+	{"+proj=merc +a=6378137 +rf=298.25 +x_0=1", "+proj=merc +a=6378137 +rf=298.25 +x_0=1.0000000000000007"},
+	{"+proj=merc +a=6378137 +rf=298.25 +x_0=1.0000000000000007", "+proj=merc +a=6378137 +rf=298.25 +x_0=1.0000000000000013"},
+	{"+proj=merc +a=6378137 +rf=298.25 +x_0=1", "+proj=merc +a=6378137 +rf=298.25 +x_0=1.0000000000000013"},
 	{"EPSG:4326", "WGS84"},
 	{"EPSG:4326", "+title=WGS 84 (long/lat) +proj=longlat +ellps=WGS84 +datum=WGS84 +units=degrees"},
 	{"EPSG:3857", "GOOGLE"},
